@@ -24,7 +24,7 @@ func (t *tr) fail(format string, a ...any) string {
 	if t.err == nil {
 		t.err = fmt.Errorf(format, a...)
 	}
-	return "sorryUntranslatable"
+	return "untranslatableExpr"
 }
 
 func (t *tr) expr(e ast.Expr) string {
